@@ -781,7 +781,9 @@ class SymNd(np.ndarray):
             flat = self.reshape(-1) if self.flags["C_CONTIGUOUS"] else None
             v = _num(value)
             if isinstance(v, _Inf):
-                raise Unsupported("masked store of infinity")
+                # a cell cannot be "maybe infinite": fork on the mask instead of merging
+                super().__setitem__(concretize_mask(key), value)
+                return
             it = np.nditer(self, flags=["multi_index", "refs_ok"])
             for _ in it:
                 idx = it.multi_index
